@@ -31,6 +31,12 @@ example : acyclic [(0, 1), (0, 2), (1, 2)] = true := by decide
     sequential order of these sections (hypothesis of SV.TxCache.AddCommute) -/
 theorem addTx_updates_atomic : addTxIndexUpdatesAtomic = true := by decide
 
+/-- eviction's removals (senders' lists, then hash index) of every pass run inside `mutTxOperation`: they are atomic with respect
+    to AddTx and RemoveTxByHash, so a sender list emptied and dropped by the eviction cannot be the one a concurrent AddTx is
+    about to insert into (defect F13 before the repair: such a transaction stayed reachable by hash only — neither
+    selectable nor evictable) -/
+theorem eviction_removals_atomic : evictionRemovalsUnderTxOperationLock = true := by decide
+
 /-- the mempool's atomic counters are paired with the chunk-locked map updates: they change iff the map operation reported a
     change, with no lookup before it (no check-then-act) — the mechanism behind "once all goroutines have finished, CountTx
     and NumBytes equal the number and total Size of the transactions reachable by hash" -/
